@@ -212,6 +212,23 @@ pub fn main(args: &[String]) -> i32 {
     let max_states: usize = arg("--max-states").unwrap_or("3000").parse().unwrap();
     let seed: u64 = arg("--seed").unwrap_or("0").parse().unwrap();
     let only = arg("--config");
+    // watchdog: an operation of the real allocator that does not return within 20 s is reported as a hang
+    // (<out>.hang holds the transition that was being executed) and ends the process with exit code 3
+    let pending: std::sync::Arc<std::sync::Mutex<Option<(std::time::Instant, Value)>>> = std::sync::Arc::new(std::sync::Mutex::new(None));
+    {
+        let pending = pending.clone();
+        let hang_path = format!("{}.hang", out_path);
+        std::thread::spawn(move || loop {
+            std::thread::sleep(std::time::Duration::from_millis(500));
+            let g = pending.lock().unwrap();
+            if let Some((t0, v)) = g.as_ref() {
+                if t0.elapsed() > std::time::Duration::from_secs(20) {
+                    std::fs::write(&hang_path, v.to_string()).unwrap();
+                    std::process::exit(3);
+                }
+            }
+        });
+    }
     let mut total_states = 0usize;
     let mut total_trans = 0usize;
     let mut granted = 0usize;
@@ -258,6 +275,12 @@ pub fn main(args: &[String]) -> i32 {
                 let pre = a.state_json();
                 let live_pre = live_json(&a);
                 let _ = panics::take();
+                *pending.lock().unwrap() = Some((std::time::Instant::now(), match &op {
+                    Op::Alloc(i) => json!({"d": c.name, "coupled": c.coupled, "ps0": ps0, "pre": pre, "live_pre": live_pre, "op": "alloc",
+                                           "rq": rq_json(&c, &c.requests[*i]), "hang": true}),
+                    Op::Release(k) => json!({"d": c.name, "coupled": c.coupled, "ps0": ps0, "pre": pre, "live_pre": live_pre, "op": "release",
+                                             "rq": [], "k": k, "hang": true}),
+                }));
                 let line = match &op {
                     Op::Alloc(i) => {
                         let r = &c.requests[*i];
@@ -303,6 +326,7 @@ pub fn main(args: &[String]) -> i32 {
                         }
                     }
                 };
+                *pending.lock().unwrap() = None;
                 let panicked = line["pan"] == 1;
                 writeln!(out, "{}", line).unwrap();
                 total_trans += 1;
